@@ -24,13 +24,17 @@ func lineCountRef(b []byte) int {
 }
 
 var c01Templates = []string{
-	"\xff\x41\xff\x41\n\n\xff\x41\xff\x41",       // ⟨2⟩ blank ⟨2⟩
-	"a\xffE\xffE\xffWb\xff\x41",                   // a EOL EOL EOL|SP b ⟨1⟩
-	"a\n#\xff\x41\xff\x41\n\xff\x41\xff\x41",     // paragraph interrupted by heading
-	"[a]: b\n\xff\x41\xff\x41\xff\x41",           // definition followed by 3 free bytes
-	"\xfe\x00a\n\xfe\xfe\x00a\n\xfe\xfe\x00a\n\xfe\n\n\xfe\x00a\xfe\xfe\x00a\xfe", // NUL runs
-	"- \xff\x41\n\n\n\xff\x41\r\n\xff\x41",       // list, blank lines, CRLF
-	"\xffW\xffW\xff\x41\xffW\xffW\xff\x41\xffW",   // whitespace around two bytes
+	"\xffA\xffA\n\n\xffA",                         // 0: ⟨2⟩ blank ⟨1⟩
+	"a\xffE\xffE\xffWb\xffA",                        // 1: a EOL EOL EOL|SP b ⟨1⟩
+	"a\n#\xffA\n\xffA",                             // 2: paragraph interrupted by heading
+	"[a]: b\n\xffA\xffA\xffA",                       // 3: definition followed by 3 free bytes
+	"\xfe\x00a\n\xfe\xfe\x00a\n\xfe\xfe\x00a\n\xfe\n\n\xfe\x00a\xfe\xfe\x00a\xfe", // 4: NUL runs
+	"- \xffA\n\n\n\xffA\r\n\xffA",                // 5: list, blank lines, CRLF
+	"\xffW\xffA\xffW\xffW\xffA",                    // 6: whitespace around two bytes
+	// thorough only:
+	"\xffA\xffA\n\n\xffA\xffA",                    // 7
+	"a\n#\xffA\xffA\n\xffA\xffA",                  // 8
+	"\xffW\xffW\xffA\xffW\xffW\xffA\xffW",          // 9
 }
 
 func H_C01_F(n, entry int) {
